@@ -31,7 +31,16 @@ func freePass() {
 				for i := 0; i < iters; i++ {
 					cfg := base
 					cfg.Queue = q
-					class, detail, _ := runOne(cfg, engine.NewReplayChooser(nil))
+					var class, detail string
+					done := make(chan struct{})
+					go func() { class, detail, _ = runOne(cfg, engine.NewReplayChooser(nil)); close(done) }()
+					select {
+					case <-done:
+					case <-time.After(60 * time.Second):
+						b, _ := json.Marshal(cfg)
+						fmt.Printf("FREE-RUN-HANG config=%s\n", b)
+						os.Exit(4)
+					}
 					total++
 					if class != "" {
 						b, _ := json.Marshal(cfg)
@@ -75,6 +84,8 @@ func racePass() {
 			}
 		}
 		rep.Fail(engine.Failure{Class: "race-pass/data-race/" + frame, Detail: "the race detector reported a data race in the free-running pass: " + r.Stderr, Case: map[string]any{"family": "race-pass", "log": r.Stderr}}, 0)
+	case r.Exit == 4:
+		rep.Fail(engine.Failure{Class: "race-pass/hang", Detail: "a free-running session did not finish within 60 s (threads blocked for good): " + r.Stdout, Case: map[string]any{"family": "race-pass", "log": r.Stdout}}, 0)
 	case r.Exit == 3:
 		rep.Fail(engine.Failure{Class: "race-pass/oracle-failure", Detail: r.Stdout, Case: map[string]any{"family": "race-pass", "log": r.Stdout}}, 0)
 	case r.Exit != 0:
